@@ -46,8 +46,8 @@ func cntH(q *Query, cur Map, o *FunctionOptions, args []any) (any, error) {
 // returns; ONCE runs once; under every (preemption-bounded) schedule.
 func H_C14_strategies() {
 	n := verif.Choose("rows", maxRows(2, 3)+1)
-	form := verif.Choose("form", 16)
-	if form >= 4 && form != 9 && form < 12 && n > 1+verif.Tier() {
+	form := verif.Choose("form", 19)
+	if ((form >= 4 && form != 9 && form < 12) || form >= 16) && n > 1+verif.Tier() {
 		verif.Assume(false) // nested forms: one row (two in the thorough tier)
 	}
 	callsF, callsG, callsH, doneF, doneG = 0, 0, 0, 0, 0
@@ -87,6 +87,13 @@ func H_C14_strategies() {
 	case 9:
 		// an ASYNC call started by AWAIT (after Exec's own wait)
 		sql = "SELECT a, AWAIT(ASYNC.vf(a)) AS v FROM t"
+	case 16:
+		// union branches with background calls and no column that waits for them
+		sql = "SELECT a, SPINASYNC.vg(a) FROM t UNION ALL SELECT a FROM t"
+	case 17:
+		sql = "SELECT a FROM t UNION ALL SELECT a, SPINASYNC.vg(a) FROM t"
+	case 18:
+		sql = "SELECT a, ASYNC.vf(a) AS v FROM t UNION ALL SELECT a, SPINASYNC.vg(a) FROM t"
 	case 10:
 		// the same qualified call twice in one select list
 		sql = "SELECT a, ASYNC.vf(a) AS v, ASYNC.vf(a) AS w FROM t"
@@ -160,6 +167,12 @@ func H_C14_strategies() {
 			want = append(want, Map{"a": r["a"], "s": Map{"w": float64(2)}})
 		}
 		verif.Assert(verif.Eq(got, want), "async-equals-sync")
+	case 16, 17:
+		verif.Assert(callsG == n && doneG == n, "nested-spinasync-completed")
+		verif.Assert(len(got) == 2*n, "spin-adds-no-column")
+	case 18:
+		verif.Assert(callsF == n && doneF == n && callsG == n && doneG == n, "nested-spinasync-completed")
+		verif.Assert(len(got) == 2*n, "spin-adds-no-column")
 	case 13, 15:
 		verif.Assert(callsF == n && doneF == n, "async-called-once-per-row-and-completed")
 		var want []any
